@@ -104,8 +104,8 @@ def gen_deck(rng, n_like=None, imp_decrease=False, allow_void_mat=False):
     def imp_of(val=1):
         if imp_mode != 'card':
             return None
-        if val and rng.random() < 0.2:
-            return {'n': val, 'p': rng.choice([0, 1, 2])}
+        if val and rng.random() < 0.25:
+            return {'n': val, 'p': rng.choice([0, 1, 2, val, val])}
         return {'n': val}
 
     # filler universes
@@ -324,6 +324,8 @@ def gen_deck(rng, n_like=None, imp_decrease=False, allow_void_mat=False):
     for c in cells:
         if c.get('like') is None and rng.random() < 0.15:
             c['upper'] = True
+        elif c.get('like') is None and rng.random() < 0.5:
+            c['group_imp'] = True
     deck = {'title': 'C15 generated deck', 'cells': cells,
             'surfaces': surfaces, 'transforms': trs,
             'materials': {m: MATERIALS[m] for m in sorted(used)},
@@ -353,6 +355,7 @@ def resolve(by_id, cid, depth=0):
     base.pop('but', None)
     base.pop('style', None)
     base.pop('upper', None)
+    base.pop('group_imp', None)
     base.pop('text', None)
     return base
 
@@ -416,7 +419,10 @@ def but_options(rng, but, repeat=False):
             items = list(val.items())
             if len(items) == 2 and items[0][1] == items[1][1] \
                     and rng.random() < 0.6:
-                name = ','.join(part for part, _ in items)
+                names = [part for part, _ in items]
+                if rng.random() < 0.5:
+                    names.reverse()        # imp:p,n: another grouping order
+                name = ','.join(names)
                 name = rng.choice([f'imp:{name}', f'IMP:{name.upper()}'])
                 parts.append(kv(rng, name, items[0][1]))
             else:
@@ -468,6 +474,15 @@ def like_text(rng, cell):
     return ' '.join([head] + parts)
 
 
+def group_imp(cell, text):
+    '''"imp:n=v imp:p=v" written as one keyword "imp:n,p=v" on the cards that
+    ask for it (same meaning, another grouping of the particles).'''
+    if not cell.get('group_imp'):
+        return text
+    import re
+    return re.sub(r'imp:n=(\S+) imp:p=\1(?=\s|$)', r'imp:n,p=\1', text)
+
+
 def render(deck, rng=None):
     '''Text of the deck.  LIKE cards get spelling variants when rng is given
     (deck.py's plain spelling otherwise).'''
@@ -491,8 +506,8 @@ def render(deck, rng=None):
             out.append(deckmod.wrap(' '.join(
                 [deckmod.cell_text(plain)] + [o.upper() for o in opts])))
         else:
-            out.append(deckmod.wrap(cell.get('text')
-                                    or deckmod.cell_text(cell)))
+            out.append(deckmod.wrap(group_imp(cell, cell.get('text')
+                                              or deckmod.cell_text(cell))))
     out.append('')
     for surf in deck['surfaces']:
         out.append(deckmod.wrap(deckmod.surface_text(surf)))
